@@ -203,9 +203,6 @@ fn params<T: Semiring>(ws: &WeightSpec, f: impl Fn(&[i64]) -> T) -> WmcParams<T>
     ))
 }
 
-fn num(x: f64) -> Value {
-    if x.is_finite() && x.fract() == 0.0 && x.abs() < 2e9 { json!(x as i64) } else { json!(format!("{:e}", x)) }
-}
 
 fn cnf_count(cnf: &Cnf, ws: &WeightSpec, nv: usize, ev: &mut Value) {
     let d = 8f64.powi(ws.wexp as i32);
